@@ -18,8 +18,9 @@ VERIF = Path(__file__).resolve().parent.parent
 SPEC = VERIF / "spec"
 REPO = Path(os.environ.get("VERIF_REPO", "/repo"))
 WORKROOT = VERIF / ".work"
-EVIDENCE = VERIF / "evidence"
-REPLAYS = VERIF / "replays"
+_OUT = Path(os.environ["VERIF_OUT"]) if os.environ.get("VERIF_OUT") else VERIF   # seed evaluation writes elsewhere
+EVIDENCE = _OUT / "evidence"
+REPLAYS = _OUT / "replays"
 TLA_CP = "/opt/veriftools/tla/tla2tools.jar:/opt/veriftools/tla/CommunityModules-deps.jar"
 NCPU = min(16, os.cpu_count() or 1)
 NSH = 16  # number of independent chains in Trace*.tla
@@ -85,7 +86,7 @@ def run_tlc(module, cfg_text, env=None, workers=None, timeout=1500, extra=(), ta
     cfg = d / f"{module}.cfg"
     cfg.write_text(cfg_text)
     cmd = [
-        "java", "-XX:+UseParallelGC", "-Xmx12g", "-cp", TLA_CP, "tlc2.TLC",
+        "java", "-XX:+UseParallelGC", "-Xmx12g", "-Xss64m", "-cp", TLA_CP, "tlc2.TLC",
         "-workers", str(workers or NCPU), "-metadir", str(d / "meta"), "-noGenerateSpecTE",
         "-config", str(cfg),
     ]
@@ -215,8 +216,8 @@ class Report:
         self.violations.append((key, desc, replay))
 
     def finish(self):
-        EVIDENCE.mkdir(exist_ok=True)
-        REPLAYS.mkdir(exist_ok=True)
+        EVIDENCE.mkdir(parents=True, exist_ok=True)
+        REPLAYS.mkdir(parents=True, exist_ok=True)
         wall = time.time() - self.t0
         distinct_nt = len(self.nt_cases)
         cov = {
@@ -267,3 +268,44 @@ class Report:
         print(f"OK property={self.pid} tier={self.tier} states={self.states} traces={self.traces} "
               f"wall={wall:.1f}s")
         return 0
+
+
+# ---------------------------------------------------------------------------
+# (A) the semantic core + (C) the TLC-enumerated exhaustive family
+
+SEM_CFG = """CONSTANTS NTS = {%s}
+ TS = {%s}
+ MAXBODY = %d
+ MAXRULES = %d
+ WEIGHTS = {%s}
+ SRNAME = "%s"
+ L = 3
+ H = 3
+INIT Init
+NEXT Next
+%s
+CHECK_DEADLOCK FALSE
+"""
+
+
+def semantic_core(report, invariants, nts=("S", "A"), ts=("a",), maxbody=2, maxrules=2, weights=(1,), sr="Sat3"):
+    """Model-check the oracle against the literal definitions on every grammar of a small family and return
+    that family (written out by TLC) so that the same grammars are replayed into the real code."""
+    d = fresh("fam")
+    f = d / "family.ndjson"
+    cfg = SEM_CFG % (", ".join(f'"{x}"' for x in nts), ", ".join(f'"{x}"' for x in ts), maxbody, maxrules,
+                     ", ".join(str(w) for w in weights), sr, "\n".join(f"INVARIANT {i}" for i in invariants))
+    res = run_tlc("MCGrammarSem", cfg, env={"FAMILY_FILE": str(f)}, timeout=3000)
+    if not res.ok or res.left != 0:
+        raise MachineryError("MCGrammarSem: the oracle disagrees with the literal definition (spec-level):\n" + res.errhead)
+    report.add_tlc(res, f"MCGrammarSem {invariants} on every grammar with <= {maxrules} rules over {nts}/{ts}, bodies <= {maxbody}")
+    names = {x: f"#{i}" for i, x in enumerate(nts)}
+    fam = []
+    for line in open(f):
+        G = json.loads(line)
+        fam.append({"S": names[G["S"]], "V": sorted(G["V"]),
+                    "rules": [{"w": r["w"], "h": names[r["h"]], "b": [names.get(y, y) for y in r["b"]]} for r in G["rules"]]})
+    out = workdir() / f"family-{len(fam)}-{_counter[0]}.json"
+    out.write_text(json.dumps(fam))
+    report.extra["tlc_enumerated_family_size"] = len(fam)
+    return str(out)
